@@ -73,7 +73,12 @@ func verifJ(w *inotify, when string) {
 	}
 }
 
-func verifListOf(w *inotify) []string { return w.WatchList() }
+func verifListOf(w *inotify) []string {
+	verifLockMon(true)
+	l := w.WatchList()
+	verifLockMon(false)
+	return l
+}
 
 func verifInList(l []string, p string) bool {
 	for _, x := range l {
@@ -131,7 +136,9 @@ func H_step_add() {
 	pre := verifSnap()
 	li := verifEntryByPath(c)
 
+	verifLockMon(true)
 	err := w.Add(arg)
+	verifLockMon(false)
 
 	verifAssert(verifK.addCalls == pre.add+1, "Add makes exactly one inotify_add_watch call")
 	verifAssert(verifK.lastPath == c, "Add passes the cleaned spelling to the kernel")
@@ -203,7 +210,9 @@ func H_step_remove() {
 	pre := verifSnap()
 	li := verifEntryByPath(c)
 
+	verifLockMon(true)
 	err := w.Remove(arg)
+	verifLockMon(false)
 
 	if li < 0 {
 		verifAssert(err != nil && errors.Is(err, ErrNonExistentWatch), "Remove of an unlisted path fails with ErrNonExistentWatch")
